@@ -58,7 +58,7 @@ type Range struct{ Lo, Hi int }
 // Message is a message declaration.
 type Message struct {
 	Name          string
-	FQN           string // without leading dot
+	FQN           string   // without leading dot
 	Fields        []*Field // in declaration order (oneof members included, with Oneof >= 0)
 	Oneofs        []string
 	Nested        []*Message
@@ -77,20 +77,20 @@ type Message struct {
 
 // Field is a field, extension, map field or group field.
 type Field struct {
-	Name     string
-	Number   int
-	Label    string // "optional", "required", "repeated", "" (proto3 singular / editions / oneof member)
-	Type     string // scalar name, "message", "enum", "group", "map"
-	TypeFQN  string // for message/enum/group: target FQN without leading dot
-	TypeSpell string // spelling used in source for TypeFQN (default "." + TypeFQN)
-	MapKey   string // scalar
-	MapVal   string // scalar name, "message" or "enum" (then TypeFQN is the value type)
-	Oneof    int    // index into Message.Oneofs, or -1
-	Default  string // source spelling of the default, "" if none
+	Name        string
+	Number      int
+	Label       string // "optional", "required", "repeated", "" (proto3 singular / editions / oneof member)
+	Type        string // scalar name, "message", "enum", "group", "map"
+	TypeFQN     string // for message/enum/group: target FQN without leading dot
+	TypeSpell   string // spelling used in source for TypeFQN (default "." + TypeFQN)
+	MapKey      string // scalar
+	MapVal      string // scalar name, "message" or "enum" (then TypeFQN is the value type)
+	Oneof       int    // index into Message.Oneofs, or -1
+	Default     string // source spelling of the default, "" if none
 	DefaultDesc string // expected default_value text in the descriptor
-	JSONName string // explicit json_name, "" if none
-	Options  []Opt  // other options
-	Group    *Message
+	JSONName    string // explicit json_name, "" if none
+	Options     []Opt  // other options
+	Group       *Message
 	// editions
 	Features []Opt // e.g. {features.field_presence, IMPLICIT}; printed like options
 }
@@ -116,12 +116,12 @@ type Enum struct {
 
 // Method is an rpc.
 type Method struct {
-	Name            string
-	In, Out         string // FQNs
+	Name              string
+	In, Out           string // FQNs
 	InSpell, OutSpell string
-	ClientStreaming bool
-	ServerStreaming bool
-	Options         []Opt
+	ClientStreaming   bool
+	ServerStreaming   bool
+	Options           []Opt
 }
 
 // Service is a service declaration.
